@@ -147,6 +147,7 @@ def run(ck):
         "interest/hint/enabled agree. Layered::pick_interest/pick_level_hint as a whole are NOT decided (no sound oracle "
         "from shapes); only their None-layer branches are checked for presence.")
     ck.assumptions += ["children are self-consistent (never => false, always => true)", "fewer than 64 filters"]
+    ck.rule("C08.R8", "level hints and thresholds are compared by a correct total order (as C19.R1/R2/R4)", floor=60)
     ck.rule("C08.R1", "And/Or/Not: interest table sound w.r.t. enabled; hint is a sound bound", floor=6)
     ck.rule("C08.R2", "Option<F>: None is neutral, Some forwards", floor=4)
     ck.rule("C08.R3", "interest accumulation (Interest::and, FilterState::add_interest) never invents never/always", floor=2)
@@ -154,6 +155,8 @@ def run(ck):
     ck.rule("C08.R5", "EnvFilter: enabled guarded by max_level; hint and interest tables", floor=4)
     ck.rule("C08.R6", "Vec<S>: interest/hint agree with enabled = all", floor=3)
     ck.rule("C08.R7", "None-layer hint corrected at composition", floor=1)
+    from rules import C19
+    C19.order_rules(ck, F, "C08.R8")
     r1(ck, F)
     r2(ck, F)
     r3(ck, F)
